@@ -932,6 +932,10 @@ impl BreadthFirstSearch {
 
         queue.push_back((root_goal as *mut Goal, 0));
 
+        // All speculative rule executions of this search happen inside one undo
+        // frame so that a failed proof leaves the caller's facts untouched.
+        facts.begin_undo_frame();
+
         while let Some((goal_ptr, depth)) = queue.pop_front() {
             // Safety: We maintain ownership properly
             let goal = unsafe { &mut *goal_ptr };
@@ -984,6 +988,12 @@ impl BreadthFirstSearch {
         }
 
         let success = root_goal.is_proven();
+
+        if success {
+            facts.commit_undo_frame();
+        } else {
+            facts.rollback_undo_frame();
+        }
 
         SearchResult {
             success,
